@@ -399,6 +399,30 @@ def integration(ctx, tmp):
                 viol(f"[datasets collections={colls} find_first={find_first}] " + "; ".join(problems[:3]), f"datasets:{colls}:{find_first}",
                      {"kind": "datasets", "collections": colls, "find_first": find_first, "problems": problems})
     ctx.count("dataset-queries", 8)
+    # ordering and limit together with dimension records attached (whatever the order in which the query was put together)
+    for with_rec in (False, True):
+        for order, lim in (("-detector", 2), ("detector", 1), ("-detector", 5), ("detector", 3)):
+            want_rows = sorted((1, 2, 3), reverse=order.startswith("-"))[:lim]
+            forms = {"Butler.query_datasets": lambda: b.query_datasets("c16_dt", collections=["ra"], order_by=order, limit=lim, with_dimension_records=with_rec, explain=False)}
+
+            def _late():
+                with b.query() as q_:
+                    r_ = q_.datasets("c16_dt", collections=["ra"]).order_by(order).limit(lim)
+                    r_ = r_.with_dimension_records() if with_rec else r_
+                    return list(r_), r_.count(exact=True, discard=True)
+
+            ctx.evaluations += 1
+            ctx.count("datasets-ordered-limited" + (":with-records" if with_rec else ""))
+            try:
+                got_rows = [r_.dataId["detector"] for r_ in forms["Butler.query_datasets"]()]
+                late_rows, late_count = _late()
+                late_rows = [r_.dataId["detector"] for r_ in late_rows]
+            except Exception as e:
+                got_rows, late_rows, late_count = f"{type(e).__name__}: {str(e)[:80]}", None, None
+            if got_rows != want_rows or late_rows != want_rows or late_count != len(want_rows):
+                viol(f"datasets ordered by {order!r} with limit {lim}" + (" and dimension records" if with_rec else "") + f": Butler.query_datasets gives detectors {got_rows}, "
+                     f"Query.datasets(...).order_by().limit()" + (".with_dimension_records()" if with_rec else "") + f" gives {late_rows} (count {late_count}); expected {want_rows}",
+                     f"datasets-order-limit:{order}:{lim}:{with_rec}", {"kind": "datasets", "order_by": order, "limit": lim, "with_dimension_records": with_rec})
 
     # ---- one constraint, three spellings
     for v in (1, 4, 7):
